@@ -89,8 +89,10 @@ SolveClauses(e) ==
   ELSE IF ~(Len(e.y) = e.n /\ \A i \in 1..e.n : FxWF(e.y[i])) THEN [ResultWellFormed |-> FALSE]
   ELSE [NoError |-> TRUE, ResultWellFormed |-> TRUE,
         OperandsUnchanged |-> e.ck2 = e.ck,
+        \* condense: the expansion COPIES the prescribed values (exact); enforce: they come out of the solver (rounding)
         SolutionOnConstrained |-> \A i \in VSet(e.D) :
-            FxNear(e.y[i], FxInt(e.ytrue[i]), IF e.method \in {"penalize", "penalize-default"} THEN TolPenal ELSE FxZero),
+            FxNear(e.y[i], FxInt(e.ytrue[i]), IF e.method \in {"penalize", "penalize-default"} THEN TolPenal
+                                              ELSE IF e.method = "enforce" THEN TolSolve ELSE FxZero),
         SolutionOnKept |-> \A i \in (1..e.n) \ VSet(e.D) :
             FxNear(e.y[i], FxInt(e.ytrue[i]), IF e.method \in {"penalize", "penalize-default"} THEN TolPenal ELSE TolSolve)]
 
